@@ -108,10 +108,10 @@ def _mutate_one_field(gen, kind, rec, w):
             rec["power"] = [x for x in opts if x != rec["power"]][(w // 16) % (len(opts) - 1)]
         elif f in ("spill", "timer_set", "bypass", "turbo"):
             rec[f] = not rec[f]
-        elif f == "setpoint_raw":
-            rec[f] = (rec[f] + 1 + (w // 16) % 5) % (64 if gen == 4 else 251)
+        elif f == "setpoint_raw":   # the smallest representable step half of the time (one raw unit = 0.1 / 1 degC)
+            rec[f] = (rec[f] + (1 if (w // 16) % 2 == 0 else 2 + (w // 32) % 5)) % (64 if gen == 4 else 251)
         elif f == "temp_raw":
-            rec[f] = (rec[f] + 1 + (w // 16) % 50) % 2001
+            rec[f] = (rec[f] + (1 if (w // 16) % 2 == 0 else 2 + (w // 32) % 50)) % 2001
         else:
             rec["error_code"] = 0 if rec["error_code"] else 1 + (w // 16) % 100
     else:
@@ -124,9 +124,9 @@ def _mutate_one_field(gen, kind, rec, w):
         elif f == "percent":
             rec[f] = (rec[f] + 5) % 101
         elif f == "setpoint_raw":
-            rec[f] = ((rec[f] or 0) + 1 + (w // 16) % 5) % (64 if gen == 4 else 251)
+            rec[f] = ((rec[f] or 0) + (1 if (w // 16) % 2 == 0 else 2 + (w // 32) % 5)) % (64 if gen == 4 else 251)
         elif f == "temp_raw":
-            rec[f] = ((rec[f] or 0) + 1 + (w // 16) % 50) % 2001
+            rec[f] = ((rec[f] or 0) + (1 if (w // 16) % 2 == 0 else 2 + (w // 32) % 50)) % 2001
         else:
             rec[f] = not rec[f]
 
